@@ -97,6 +97,9 @@ def oracle(ctx, lines, out):
                 detail = 'Decode panics on twoS=%d, %d-byte input %s' % (n, len(word), word.hex()[:60])
             else:
                 continue  # negative twoS: make() panics; outside the property's domain (n in 2..68)
+        elif o.startswith('timeout') or o.startswith('crash'):
+            key = 'does-not-terminate'
+            detail = 'Decode(n=%d) did not return (%s) on the %d-byte input %s' % (n, o.split()[0], len(word), word.hex()[:80])
         elif o.startswith('ok'):
             res = bytes.fromhex(o.split()[1]) if o.split()[1] != '-' else b''
             if n < 0:
